@@ -25,6 +25,9 @@ func init() {
 			{"C13.R6", "q", "merge reports same-hash groups", c13r6},
 			{"C13.R7", "q", "hash function never replaced", c13r7},
 			{"C13.R8", "q", "nil-result discipline of the lookups", c13r8},
+			{"C13.R9", "q", "hint buffer reports a foreign owner of the hash as a collision", c13r9},
+			{"C13.R10", "q", "collision table reports `hash known` independently of the key", c13r10},
+			{"C13.R6b", "q", "merge flushes its last group on every path", c13r6b},
 			{"C14.R4", "q", "shared: hint file order and index search (lookup of colliding keys goes through it)", c14r4},
 			{"C18.R2", "q", "shared: keep table (collision entries)", c18r2},
 		},
@@ -351,4 +354,130 @@ func c13r3b(c *Ctx) {
 		}
 	}
 	c.check(ok, R, f.Key+": chunk id of a table hit = it.Pos.ChunkID", f.Pos(), "ChunkID = it.Pos.ChunkID", "for a key found in the collision table getCollisionGC no longer reports the item's chunk id (zero value 0 instead): GC compares Position{0, offset} with the scanned position, so the current record of a colliding key in any file but 0 is released as garbage")
+}
+
+// c13r9: HintBuffer.Get must report iscollision whenever the slot of the hash
+// is owned by another key — before (and independently of) its own collision map.
+func c13r9(c *Ctx) {
+	const R = "C13.R9"
+	f := c.fn(R, "store.HintBuffer.Get")
+	if f == nil {
+		return
+	}
+	info := f.Info()
+	isc := f.Result(1)
+	var store *ast.AssignStmt
+	var lookup ast.Node
+	ast.Inspect(f.Decl.Body, func(x ast.Node) bool {
+		switch s := x.(type) {
+		case *ast.AssignStmt:
+			for i, l := range s.Lhs {
+				if prog.ObjOf(info, l) == isc && i < len(s.Rhs) {
+					if b, isC := prog.ConstBool(info, s.Rhs[i]); isC && b {
+						store = s
+					}
+				}
+			}
+		case *ast.IndexExpr:
+			if prog.IsField(info, "store.HintBuffer.collisions")(prog.Unparen(s.X)) && lookup == nil {
+				lookup = s
+			}
+		}
+		return true
+	})
+	if store == nil || lookup == nil {
+		c.undec(R, f.Key, "collision flag store / collision-map lookup not recognised")
+		return
+	}
+	// guards of the store: found ∧ key != items[idx].Key — nothing derived from the collision map
+	bad := ""
+	for _, a := range f.GuardsAt(store) {
+		if a.X != nil {
+			for _, s := range f.SourcesAt(a.X, store) {
+				if s.Expr != nil && prog.MentionsField(info, s.Expr, "store.HintBuffer.collisions") {
+					bad = c.pos(a.X)
+				}
+			}
+		}
+	}
+	c.Paths++
+	c.check(bad == "" && f.CFG().Dominates(store, lookup), R, f.Key+": `another key owns this hash` ⇒ collision, before the buffer's own collision map is consulted", c.pos(store), "iscollision = true dominates the lookup of h.collisions",
+		"HintBuffer.Get reports a collision only when its own collision map already knows the hash: a key whose hash slot is owned by a different key that was written once into this buffer is reported as (nil, false), so GC's hint-buffer check sees no collision and drops the other key's only record")
+}
+
+// c13r10: CollisionTable.get's second result means "this hash has a group".
+func c13r10(c *Ctx) {
+	const R = "C13.R10"
+	f := c.fn(R, "store.CollisionTable.get")
+	if f == nil {
+		return
+	}
+	info := f.Info()
+	okRes := f.Result(1)
+	if okRes == nil {
+		c.undec(R, f.Key, "second result is not a named value")
+		return
+	}
+	n, bad := 0, ""
+	ast.Inspect(f.Decl.Body, func(x ast.Node) bool {
+		as, isA := x.(*ast.AssignStmt)
+		if !isA {
+			return true
+		}
+		for i, l := range as.Lhs {
+			if prog.ObjOf(info, l) != okRes {
+				continue
+			}
+			n++
+			good := false
+			if len(as.Rhs) == 1 && len(as.Lhs) == 2 && i == 1 {
+				if ix, isI := prog.Unparen(as.Rhs[0]).(*ast.IndexExpr); isI && prog.IsField(info, "store.CollisionTable.Items")(prog.Unparen(ix.X)) && prog.ObjOf(info, ix.Index) == f.Param(0) {
+					good = true
+				}
+			}
+			if !good {
+				bad = c.pos(as)
+			}
+		}
+		return true
+	})
+	for _, rs := range f.CFG().Returns() {
+		if len(rs.Results) == 2 && prog.ObjOf(info, rs.Results[1]) != okRes {
+			bad = c.pos(rs)
+		}
+	}
+	c.check(n > 0 && bad == "", R, f.Key+": ok ⇔ the hash has an entry (whatever the key)", f.Pos(), "ok only from `table.Items[keyhash]`",
+		"the collision table's `ok` result is (also) derived from the per-key lookup ("+bad+"): callers rely on `ok` meaning `this hash is known to collide` — hintMgr.set registers a new key of a known group only then, and getCollisionGC keeps a hash-known/key-unknown record only then")
+}
+
+// c13r6b: merge() flushes the last buffered group on every non-error path,
+// independently of whether a merged file is written.
+func c13r6b(c *Ctx) {
+	const R = "C13.R6b"
+	f := c.fn(R, "store.merge")
+	if f == nil {
+		return
+	}
+	info := f.Info()
+	fl := f.CallsTo("store.mergeWriter.flush")
+	init := f.CallsTo("heap.Init")
+	if len(fl) == 0 || len(init) == 0 {
+		c.viol(R, f.Key+": last group flushed", f.Pos(), "merge no longer flushes the merge writer after the heap loop")
+		return
+	}
+	c.Paths++
+	esc := f.CFG().EscapesWithout(init[0].Expr, f.ContainsCall("store.mergeWriter.flush"), func(n ast.Node) bool {
+		rs, ok := n.(*ast.ReturnStmt)
+		if !ok {
+			return false
+		}
+		for _, a := range f.GuardsAt(rs) {
+			if a.Op == token.NEQ && a.Y != nil && prog.IsNil(info, a.Y) {
+				return true
+			}
+		}
+		return false
+	})
+	c.check(!esc.Found, R, f.Key+": last group flushed on every path (with or without a merged file)", fl[0].Pos(), "mw.flush() unconditional after the heap loop",
+		"the final flush of the merge writer is conditional (e.g. only when a merged file is written): flush is also what reports a same-hash group, so in a GC merge (no writer) the group with the greatest hash is never registered and GC drops the key that does not own the tree slot", c.trail(esc.Trail)...)
 }
